@@ -16,6 +16,14 @@ def run(ctx):
             for lo in (False, True):
                 for cn in (0, 1, 2):
                     out.append(dict(base, id="Golang", ver=v, legacy_only=lo, canary=cn, suite=0, group=0, cert="ecdsa", resume=False, mode="adversarial"))
+        # custom specs whose supported_versions list is narrower than the spec's TLSVersMin..TLSVersMax (one version, or
+        # two in ascending order): what the client accepts must still be what the wire advertises
+        seen = set()
+        for s in scns:
+            if s["legacy_only"] and not s.get("resume") and s["canary"] == 0 and s["ver"] < 772 and (s["id"], s["ver"]) not in seen and "Randomized" not in s["id"]:
+                seen.add((s["id"], s["ver"]))
+                out.append(dict(s, sv_list=[772]))
+                out.append(dict(s, sv_list=[771, 772]))
         return out
     scns, events, rej, unadv, mc = nc.run_nego(ctx, "c13", shards=8, subset=with_golang)
     for r in rej:
@@ -24,7 +32,7 @@ def run(ctx):
             raise vlib.Machinery("trace problem: %r" % (r,))
         if r["kind"] == "safety" and (any(v in d for v in VERSION_REASONS) or "connection-state" in d):
             s = r["scn"]
-            ctx.finding("version:%s:%s:v%d:legacy=%s:canary=%d" % (d, s["id"], s["ver"], s["legacy_only"], s["canary"]),
+            ctx.finding("version:%s:%s:v%d:legacy=%s:canary=%d%s" % (d, s["id"], s["ver"], s["legacy_only"], s["canary"], (":sv=%s" % "+".join(map(str, s["sv_list"]))) if s.get("sv_list") else ""),
                         "%s completed a handshake at version %#x although: %s" % (s["id"], s["ver"], d),
                         {"scenario": nc.scn_brief(s), "result": r["result"]})
     # the model-level table check must agree with what the real code did: every (id, version) pair the tables accept
